@@ -162,7 +162,7 @@ def main(argv):
             results.append(res)
             if i == 0 and not a['replay']:
                 for f2 in res['flavours']:
-                    if f2 not in flavours:
+                    if f2 not in flavours and not os.environ.get('VERIF_COVER'):   # coverage map: plain flavour only
                         flavours.append(f2)
             i += 1
     finally:
